@@ -11,6 +11,7 @@
      RuntimeBalances::to_vm                                     (balances.rs)            -> to_vm
      set_gas                                                    (gas.rs)
      append_panic_receipt (consumes panic_context)              (flow.rs)                -> append_panic_receipt
+     Debugger::clear_last_state, called by init_inner (repair 22c6df9 of finding F9)     -> clear_last_state (env)
      check_predicate: a NEW interpreter around the caller's memory (executors/main.rs)   -> predicate_vm
 
    The memory keeps what the Rust struct keeps: the stack buffer (its length is the stack
@@ -136,6 +137,7 @@ Section Instance.
     runtime_balances : IB -> option RB;                     (* TryFrom<InitialBalances>, may overflow *)
     rb_entries : RB -> list (N * (bytes * N));              (* (memory offset, (asset id, value)) *)
     block_height : Storage -> option N;
+    clear_last_state : Debugger -> Debugger;                (* Debugger::clear_last_state: last_state := None, rest kept *)
     ib_default : IB; tx_default : Tx; rb_default : RB; debugger_default : Debugger; verifier_default : Verifier;
   }.
   Variable E : env.
@@ -228,8 +230,9 @@ Section Instance.
   (* init_inner *)
   Definition init_inner (v : vm) (t : Tx) (ib : IB) (rb : RB) (gas_limit : N) : init_result :=
     let t := (prepare_sign E) t in
+    (* self.tx = tx; self.debugger.clear_last_state(); self.input_contracts = ... *)
     let v := mkVm (registers v) (mem v) (frames v) (receipts v) t (initial_balances v) ((input_contracts_of E) t)
-                  (input_contracts_index_to_output_index v) (storage v) (debugger v) (ctx v) (balances v) (interpreter_params v)
+                  (input_contracts_index_to_output_index v) (storage v) ((clear_last_state E) (debugger v)) (ctx v) (balances v) (interpreter_params v)
                   (pctx v) (ecal_state v) (verifier v) (owner_ptr v) (storage_slot_cache v) in
     match (owner_of E) (interpreter_params v) t with
     | inr b => IErr (EBug b) v
@@ -319,10 +322,18 @@ Section Instance.
     interpreter_params a = interpreter_params b /\ pctx a = pctx b /\ ecal_state a = ecal_state b /\
     verifier a = verifier b /\ owner_ptr a = owner_ptr b /\ storage_slot_cache a = storage_slot_cache b.
 
-  (* the fields initialisation does NOT touch *)
+  (* agreement on what initialisation does not reset: storage, parameters, panic context, ecal
+     state, verifier, and the debugger UP TO its last state (which init_inner forgets) *)
   Definition same_config (a b : vm) : Prop :=
-    storage a = storage b /\ debugger a = debugger b /\ interpreter_params a = interpreter_params b /\
+    storage a = storage b /\ (clear_last_state E) (debugger a) = (clear_last_state E) (debugger b) /\
+    interpreter_params a = interpreter_params b /\
     pctx a = pctx b /\ ecal_state a = ecal_state b /\ verifier a = verifier b.
+  (* what a successful initialisation leaves of the instance v0 in v: everything it does not reset,
+     the debugger with its last state forgotten *)
+  Definition untouched (v0 v : vm) : Prop :=
+    storage v = storage v0 /\ debugger v = (clear_last_state E) (debugger v0) /\
+    interpreter_params v = interpreter_params v0 /\
+    pctx v = pctx v0 /\ ecal_state v = ecal_state v0 /\ verifier v = verifier v0.
 
   Definition res_obs_eq (a b : init_result) : Prop :=
     match a, b with
